@@ -814,6 +814,31 @@ func (f *Frame) builtin(x *ssa.Call, b *ssa.Builtin, args []AV) AV {
 		if s, ok := args[0].(ASlice); ok {
 			if len(args) == 2 {
 				if t, ok := args[1].(ASlice); ok {
+					// appending within the capacity of a buffer this code made (its length beyond the slice's
+					// own: make with a capacity, or a shorter view of it) writes into that buffer
+					if s.root != nil && s.root.fresh && s.root.extVer == 0 && !s.isNil && t.root != nil && len(f.state()) > 0 &&
+						f.state().entails(atomLE(s.off.add(s.ln).add(t.ln), s.root.ln)) {
+						at := s.off.add(s.ln)
+						replicated := false
+						if t.root.fresh && t.root.extVer == 0 && t.ln.isConst() && t.off.isConst() && int(t.ln.c) == len(t.root.writes) {
+							// the packed operands: one byte store per element
+							replicated = true
+							for _, w := range t.root.writes {
+								if w.kind != wByte || !w.off.isConst() || w.off.c < t.off.c || w.off.c >= t.off.c+t.ln.c {
+									replicated = false
+								}
+							}
+							if replicated {
+								for _, w := range t.root.writes {
+									s.root.addWrite(&Write{off: at.addc(w.off.c - t.off.c), width: affConst(1), kind: wByte, val: w.val, pos: f.posStr(x.Pos()), state: f.cur, fn: f.fn})
+								}
+							}
+						}
+						if !replicated {
+							s.root.addWrite(&Write{off: at, width: t.ln, kind: wCopy, val: t, pos: f.posStr(x.Pos()), state: f.cur, fn: f.fn})
+						}
+						return ASlice{root: s.root, off: s.off, ln: s.ln.add(t.ln), elem: s.elem}
+					}
 					// result: fresh-or-shared root; model as new root with len = len(s)+len(t)
 					ln := s.ln.add(t.ln)
 					r := &Root{key: "append@" + key, ln: ln}
@@ -1177,6 +1202,33 @@ func (ch *Frame) bindMergedIn(caller *Frame, merged, incoming AV, st DNF) DNF {
 func (f *Frame) readFresh(root *Root, abs Aff, n int, be bool) (AV, bool) {
 	if v, ok := f.readFresh1(root, abs, n, be); ok {
 		return v, true
+	}
+	// byte by byte: each byte may have been written by a store of its own
+	if n > 1 {
+		var a Aff
+		okAll := true
+		for i := 0; i < n && okAll; i++ {
+			bv, ok := f.readFresh1(root, abs.addc(int64(i)), 1, be)
+			bi, isI := bv.(AInt)
+			if !ok || !isI {
+				okAll = false
+				break
+			}
+			st := f.state()
+			ba := f.useIn(bi, st, "read-back")
+			if lo, hi := ba.interval(); lo < 0 || hi > 255 {
+				okAll = false
+				break
+			}
+			sh := uint(8 * (n - 1 - i))
+			if !be {
+				sh = uint(8 * i)
+			}
+			a = a.add(ba.scale(1 << sh))
+		}
+		if okAll {
+			return AInt{a: a}, true
+		}
 	}
 	// unresolved: the bytes are whatever the buffer holds after the writes seen so far; two
 	// reads of the same location with no write in between see the same content
